@@ -76,6 +76,16 @@ CLAIMED = {
    note="Partial by nature: crypto/tls and crypto/x509 are specified (TLS.v, 15 lines), not verified. Trusted: Coq kernel, translator (unknown statements make the theorem fail), loopback networking.",
    technique="Coq proof over regenerated TLS defaults + acceptance spec validated against real crypto/tls on the full peer space",
    design="3/C16"),
+ "C11": dict(
+   text="Machine-checked proof over an interleaving semantics (Shutdown.v) of the accept loop, Shutdown, its waiter, the sessions and the environment, for EVERY schedule and any number of connections (inductive invariant over all reachable states, ShutdownProofs.step_inv): Shutdown returns nil only when no started session is registered, running or closing - hence nothing starts or runs after it (C11_shutdown_waits); a session ends only after its connection was closed (C11_ended_was_closed); the context's error only if the context ended, nil only after the waiter signalled (C11_ctx); Serve returns nil once Shutdown was signalled and closes the connection accepted too late (C11_serve_nil, C11_late_connection_closed); no step of Shutdown/waiter/context touches a session (C11_no_abort). C11_refuted_pinned exhibits the 10-step schedule that breaks the pinned tree and C11_fixed_same_schedule the repaired behaviour. Tie: every well-formed forced schedule over {connect, release accepted connection, session ends, Shutdown up to the listener close, let the close through, context ends} up to length 5 (thorough 7), 1-2 connections, runs against the real server through gated fakes; the outcome must be one the extracted model allows, and 'a session running after Shutdown returned nil' is checked directly at every point.",
+   note="Partial in that step granularity and Go's channel/select/WaitGroup/Mutex semantics are modelled, not verified. No source hooks: all schedule points are reachable through the injected net.Listener / net.Conn / context.",
+   technique="Coq proof of inductive invariants over an interleaving semantics + forced-schedule enumeration on the real server",
+   design="3/C11"),
+ "C12": dict(
+   text="Machine-checked proof of a discipline, by complete enumeration of the regenerated access table: every pair of accesses to the same Server field that may overlap in time and contains a write holds the mutex on both sides or is ordered by the go statement (C12_discipline, forallb over all pairs by vm_compute lifted with forallb_forall); no function of the package assigns a package-level variable, so Encoder/Decoder instances share nothing (C12_codec_stateless); the WaitGroup is never incremented once the waiter may be in Wait and never goes negative, over all schedules of the interleaving model (C12_waitgroup_protocol, C12_waitgroup_nonnegative). Tie: the translator regenerates the table every run; the harness built with -race runs 8 concurrent sessions x 5 requests with Shutdown at a random moment, 8 goroutines encoding/decoding overlapping types and TLS clients; a detector report (with both stacks) is the replay.",
+   note="Partial: syntactic field accesses with hand-fixed thread classes and happens-before edges; the Go memory model, aliasing through handler arguments and unexplored interleavings are outside the theorem. Client is documented as not safe for concurrent use and is excluded.",
+   technique="Coq proof by enumeration of a regenerated lockset/happens-before table + Go race detector runs",
+   design="3/C12"),
 }
 
 m = {
